@@ -279,24 +279,86 @@ def check(prog, res, tier):
         for meth, ctx in (('encrypt', 'encryptor'), ('decrypt', 'decryptor')):
             fi = ci.lookup(meth)[1]
             res.add(cipher_ob(prog, res, fi, alg, ctx, 'C13.e', f'{ci.name}.{meth} uses {alg} in ECB mode with .{ctx}()'))
-        # delegation
-        te = ci.lookup('to_enc_bytes')[1]
-        fe = ci.lookup('from_enc_bytes')[1]
-        ob = Ob('C13.e', f'{ci.name}: to_enc_bytes = encrypt(key, to_bytes()); from_enc_bytes = from_bytes(decrypt(key, block))',
-                func_where(te), 'self.encrypt(key, self.to_bytes()) / cls.from_bytes(cls.decrypt(key, enc_pin_block))',
-                rule=f'C13.e.{ci.name}.delegation')
-        t1 = ast.unparse(te.node)
-        t2 = ast.unparse(fe.node)
-        ok1 = any(isinstance(n, ast.Call) and isinstance(n.func, ast.Attribute) and n.func.attr == 'encrypt' and len(n.args) == 2
-                  and isinstance(n.args[1], ast.Call) and isinstance(n.args[1].func, ast.Attribute) and n.args[1].func.attr == 'to_bytes'
-                  for n in ast.walk(te.node))
-        ok2 = any(isinstance(n, ast.Call) and isinstance(n.func, ast.Attribute) and n.func.attr == 'decrypt' for n in ast.walk(fe.node)) \
-            and any(isinstance(n, ast.Call) and isinstance(n.func, ast.Attribute) and n.func.attr == 'from_bytes' for n in ast.walk(fe.node))
-        if ok1 and ok2:
-            ob.verdict, ob.detail = PROVED, 'delegation present in both directions'
-        else:
-            ob.verdict, ob.detail, ob.witness = REFUTED, f'delegation missing (to_enc_bytes ok={ok1}, from_enc_bytes ok={ok2})', {'ok': [ok1, ok2]}
-        res.add(ob)
+        # delegation (semantic: what reaches encrypt/decrypt/to_bytes/from_bytes)
+        concrete = 'pinblock.Iso0TDESPinBlockWithVisaPVV' if alg == 'TripleDES' else 'pinblock.Iso4AESPinBlockWithVisaPVV'
+        cci = prog.cls(concrete)
+        te = cci.lookup('to_enc_bytes')[1]
+        fe = cci.lookup('from_enc_bytes')[1]
+
+        def mk_summaries():
+            def enc(it, fi_, args, kwargs, node, self_obj):
+                it.user['encrypt_args'] = list(args)
+                r = it.sym_bytes('ciphertext', lo=8)
+                it.user['encrypt_ret'] = r
+                return r
+
+            def dec(it, fi_, args, kwargs, node, self_obj):
+                it.user['decrypt_args'] = list(args)
+                r = it.sym_bytes('cleartext', lo=8)
+                it.user['decrypt_ret'] = r
+                return r
+
+            def tb(it, fi_, args, kwargs, node, self_obj):
+                r = it.sym_bytes('clear_block', lo=8)
+                it.user['to_bytes_ret'] = r
+                return r
+
+            def fb(it, fi_, args, kwargs, node, self_obj):
+                it.user['from_bytes_args'] = (list(args), dict(kwargs))
+                r = SymV('rebuilt_pinblock', 'obj')
+                it.user['from_bytes_ret'] = r
+                return r
+            return {cci.lookup('encrypt')[1].short: enc, cci.lookup('decrypt')[1].short: dec,
+                    cci.lookup('to_bytes')[1].short: tb, cci.lookup('from_bytes')[1].short: fb}
+
+        def entry_te(it, cci=cci, te=te):
+            obj = ObjV(cci)
+            obj.fields['_pin'] = it.sym_str('pin', lo=4, hi=12, charset='digits')
+            obj.fields['card_number'] = it.sym_str('card_number', lo=13, hi=19, charset='digits')
+            key = it.sym_str('key', lo=32, hi=32, charset='hex')
+            it.user['key'] = key
+            return it.call_function(te, [key], {}, self_obj=obj)
+
+        def chk_te(p, mode):
+            u = p.interp.user
+            if p.outcome != 'return':
+                return [definite(f'to_enc_bytes raises {p.value!r}')]
+            a = u.get('encrypt_args')
+            if not a or len(a) != 2 or a[0] is not u['key'] or a[1] is not u.get('to_bytes_ret'):
+                return [definite(f'to_enc_bytes does not compute encrypt(key, self.to_bytes()): encrypt got {a!r}')]
+            if p.value is not u.get('encrypt_ret'):
+                return [definite('to_enc_bytes does not return the ciphertext')]
+            return []
+        res.add(Runs(prog, entry_te, summaries=mk_summaries(), res=res).judge(
+            'C13.e', f'{ci.name}: to_enc_bytes(key) == encrypt(key, to_bytes())', func_where(te), 'self.encrypt(key, self.to_bytes())',
+            chk_te, rule=f'C13.e.{ci.name}.to_enc'))
+
+        def entry_fe(it, cci=cci, fe=fe):
+            enc = it.sym_bytes('enc_pin_block', lo=8)
+            key = it.sym_str('key', lo=32, hi=32, charset='hex')
+            card = it.sym_str('card_number', lo=13, hi=19, charset='digits')
+            it.user.update(enc=enc, key=key, card=card)
+            return it.call_function(fe, [enc, key], {'card_number': card}, cls_obj=ClassV(cci))
+
+        def chk_fe(p, mode):
+            u = p.interp.user
+            if p.outcome != 'return':
+                return [definite(f'from_enc_bytes raises {p.value!r}')]
+            a = u.get('decrypt_args')
+            if not a or len(a) != 2 or a[0] is not u['key'] or a[1] is not u['enc']:
+                return [definite(f'from_enc_bytes does not compute decrypt(key, enc_pin_block): decrypt got {a!r}')]
+            fa = u.get('from_bytes_args')
+            if not fa or not fa[0] or fa[0][0] is not u.get('decrypt_ret'):
+                return [definite('from_enc_bytes does not rebuild the block from the decrypted bytes')]
+            if fa[1].get('card_number') is not u['card'] and not (isinstance(fa[1].get('**'), DictV) and
+                                                                   fa[1]['**'].items.get('card_number') is u['card']):
+                return [definite('from_enc_bytes does not pass the card number on to from_bytes')]
+            if p.value is not u.get('from_bytes_ret'):
+                return [definite('from_enc_bytes does not return the rebuilt block')]
+            return []
+        res.add(Runs(prog, entry_fe, summaries=mk_summaries(), res=res).judge(
+            'C13.e', f'{ci.name}: from_enc_bytes(enc, key, ...) == from_bytes(decrypt(key, enc), ...)', func_where(fe),
+            'cls.from_bytes(cls.decrypt(key, enc_pin_block), *args, **kwargs)', chk_fe, rule=f'C13.e.{ci.name}.from_enc'))
 
 
 def cipher_ob(prog, res, fi, alg, ctx, oid, title):
